@@ -25,6 +25,9 @@ def facility_faults(method, nwaits, rnd):
     if method == 2:
         for k in ks:
             out.append(("ppoll->ENOSYS from call %d (switch to poll)" % k, "%d:%d:%d:1000000" % (VKS["ppoll"], ENOSYS, k), None))
+    for k in ks[:3]:
+        out.append(("eventfd2->EPERM from call %d (creation refused in mid-run: registrations fail, existing objects keep working)" % k, "%d:%d:%d:1000000" % (VKS["eventfd2"], EPERM, k), None))
+        out.append(("eventfd2->EMFILE at call %d" % k, "%d:%d:%d:1" % (VKS["eventfd2"], 24, k), None))
     out.append(("eventfd2->EINVAL (old eventfd)", "%d:%d:0:1000000" % (VKS["eventfd2"], EINVAL), None))
     out.append(("eventfd2->ENOSYS (old eventfd)", "%d:%d:0:1000000" % (VKS["eventfd2"], ENOSYS), None))
     out.append(("eventfd2+eventfd->ENOSYS (pipes)", "%d:%d:0:1000000,%d:%d:0:1000000" % (VKS["eventfd2"], ENOSYS, VKS["eventfd"], ENOSYS), None))
@@ -120,7 +123,7 @@ def run(prop, spec, tier, seed, scale, write_evidence):
         nw = r["c"][6]
         ks = list(range(nw)) if nw <= max_k else sorted(rnd.sample(range(nw), max_k))
         for k in ks:
-            plan.append((i, m, "eintr", "EINTR at wait call %d" % k, "%s eintr_at=%d" % (line, k), r["hash"]))
+            plan.append((i, m, "eintr", "EINTR at wait call %d (after %s of the wait had passed)" % (k, ["nothing", "1 ms", "40 ms"][k % 3]), "%s eintr_at=%d eintr_adv=%d" % (line, k, [0, 1000000, 40000000][k % 3]), r["hash"]))
         for name, fparam, exp in facility_faults(m, nw, rnd):
             extra = " faults=%s" % fparam + (" expect_method=%s" % exp if exp else "")
             plan.append((i, m, "facility", name, line + extra, None))
